@@ -303,4 +303,76 @@ class Options(object):
         return got, vs, 1
 
 
-FAMILIES = [Lattice(), Breakages(), Options()]
+
+ORDER_JOB = r"""
+import sys, json, hashlib
+sys.path.insert(0, %(verif)r); sys.path.insert(0, %(repo)r)
+from mc.checks import C17
+first, second = %(first)r, %(second)r
+out = {}
+p1 = C17.build(frozenset(first)) if first is not None else None
+p2 = C17.build(frozenset(second))
+for label, text in C17.ORDER_TEXTS:
+    if p1 is not None:
+        C17.parse(p1, text)
+    r = C17.parse(p2, text)
+    out[label] = [r[0], hashlib.sha1(repr(r[1]).encode()).hexdigest()]
+print(json.dumps(out, sort_keys=True))
+"""
+
+ORDER_TEXTS = [
+    ('v1-types', 'A-MIB DEFINITIONS ::= BEGIN\nIMPORTS OBJECT-TYPE FROM RFC-1212 NetworkAddress, Counter, Gauge FROM RFC1155-SMI;\n'
+                 'a OBJECT-TYPE SYNTAX NetworkAddress ACCESS read-only STATUS mandatory DESCRIPTION "d" ::= { x 1 }\n'
+                 'b OBJECT-TYPE SYNTAX Counter ACCESS read-only STATUS mandatory DESCRIPTION "d" ::= { x 2 }\n'
+                 'c OBJECT-TYPE SYNTAX Gauge ACCESS read-only STATUS mandatory DESCRIPTION "d" ::= { x 3 }\nEND\n'),
+    ('v2-plain', 'B-MIB DEFINITIONS ::= BEGIN\nIMPORTS OBJECT-TYPE, Integer32 FROM SNMPv2-SMI;\n'
+                 'a OBJECT-TYPE SYNTAX Integer32 (0..5) MAX-ACCESS read-only STATUS current DESCRIPTION "d" ::= { x 1 }\n'
+                 'NetworkAddress ::= OCTET STRING (SIZE (4))\nEND\n'),
+    ('forbidden', 'C-MIB DEFINITIONS ::= BEGIN\nMAX ::= INTEGER\nEND\n'),
+    ('relaxed', 'D-MIB DEFINITIONS ::= BEGIN\nIMPORTS a, b, FROM X-MIB;\nc OBJECT IDENTIFIER ::= { a 1 }\nEND\n'),
+]
+
+
+class ConstructionOrders(object):
+    case_timeout = 300
+    name = 'construction-orders'
+    describe = ('in a fresh interpreter per case: a parser of dialect D1 is built (and used) first, then a parser of dialect D2 '
+                'parses four texts (SMIv1 type words, the same words as SMIv2 identifiers, a forbidden word, relaxed constructs); '
+                'every ordered pair over {strict, v1 keywords, smiV1, smiV1Relaxed, lowcase identifiers}: the result of D2 equals the '
+                'result of D2 built alone')
+    DIALECTS = [[], ['supportSmiV1Keywords'], ['supportSmiV1Keywords', 'supportIndex'], OPTIONS, ['lowcaseIdentifier']]
+
+    def blocks(self, tier):
+        return [{'second': i} for i in range(len(self.DIALECTS))]
+
+    def cases(self, block, tier):
+        for i in range(len(self.DIALECTS)):
+            if i != block['second']:
+                yield {'first': i, 'second': block['second']}
+
+    def run_case(self, case):
+        import json
+        import os
+        import subprocess
+        import sys
+        from mc import core
+
+        def job(first, second):
+            r = subprocess.run([sys.executable, '-c', ORDER_JOB % {'verif': core.VERIF, 'repo': core.REPO, 'first': first,
+                                                                    'second': second}],
+                               capture_output=True, text=True, cwd=core.VERIF, env=dict(os.environ, MC_KEEP_HASHSEED='1'))
+            if r.returncode != 0:
+                raise core.InternalError('construction-order job failed: %s' % r.stderr[-800:])
+            return json.loads(r.stdout.strip().splitlines()[-1])
+        d1, d2 = self.DIALECTS[case['first']], self.DIALECTS[case['second']]
+        alone = job(None, d2)
+        after = job(d1, d2)
+        vs = []
+        for label in sorted(alone):
+            if alone[label] != after[label]:
+                vs.append(('C17|construction-order|%s|result-depends-on-parser-built-before' % label,
+                           'dialect %r parses %s as %r alone and as %r after a parser of %r was built and used' % (
+                               d2, label, alone[label], after[label], d1)))
+        return json.dumps(after, sort_keys=True), vs, 8
+
+FAMILIES = [Lattice(), Breakages(), Options(), ConstructionOrders()]
